@@ -131,6 +131,58 @@ def gen_interp(rng, kind):
                                         " ".join(q(x) for x in vals), " ".join(q(x) for x in query))
 
 
+def belief_on(rng, S, support):
+    """dyadic belief with exactly the given support (all listed coordinates > 0)."""
+    k = len(support)
+    den = rng.choice([8, 16, 32, 64])
+    while den < k:
+        den *= 2
+    cuts = sorted(rng.sample(range(1, den), k - 1)) if k > 1 else []
+    parts = [b - a for a, b in zip([0] + cuts, cuts + [den])]
+    v = [F(0)] * S
+    for s_, p_ in zip(support, parts):
+        v[s_] = F(p_, den)
+    return v
+
+
+def gen_interp_faces(rng, kind):
+    """Query on a proper face of the simplex; stored points of three sorts in random order: on the
+    query's face (same support), on a strict sub-face (support strictly inside the query's), and
+    unusable ones (mass outside the query's support).  Values are mostly well below the corner
+    surface so that usable points really enter the bound (non-zero weights)."""
+    S = rng.choice([3, 4, 4, 5])
+    A = rng.choice([1, 2, 3])
+    ubq = [[F(rng.randint(4, 12), rng.choice([1, 2])) for _ in range(A)] for _ in range(S)]
+    cv = [max(r) for r in ubq]
+    ksup = rng.randint(2, S - 1)
+    support = sorted(rng.sample(range(S), ksup))
+    outside = [s_ for s_ in range(S) if s_ not in support]
+    query = belief_on(rng, S, support)
+    n = rng.choice([1, 2, 3, 3, 4, 5, 6])
+    pts = []
+    for _ in range(n):
+        r = rng.random()
+        if r < 0.35:                                   # same support
+            b = belief_on(rng, S, support)
+        elif r < 0.65 and ksup >= 3:                   # strict sub-face (never a corner)
+            sub = sorted(rng.sample(support, rng.randint(2, ksup - 1)))
+            b = belief_on(rng, S, sub)
+        elif r < 0.70:                                 # the query itself
+            b = list(query)
+        else:                                          # unusable: mass outside the query's support
+            extra = rng.sample(outside, rng.randint(1, len(outside)))
+            inside = rng.sample(support, rng.randint(1, ksup))
+            b = belief_on(rng, S, sorted(extra + inside))
+        pts.append(b)
+    vals = []
+    for b in pts:
+        top = sum(x * c for x, c in zip(b, cv))
+        vals.append(top - F(rng.randint(1, 24), 4) if rng.random() < 0.9 else top + F(rng.randint(0, 4), 4))
+    flat = " ".join(q(x) for row in ubq for x in row)
+    return "%s %d %d %s %s %d %s %s" % (kind, S, A, flat, vecs(pts, S), len(vals),
+                                        " ".join(q(x) for x in vals), " ".join(q(x) for x in query))
+
+
 def gen(rng, tier):
     n = {"quick": 700, "thorough": 5000, "search": 1500}[tier]
     out = []
@@ -170,5 +222,5 @@ def gen(rng, tier):
             a, b = (big, small) if rng.random() < 0.7 else (small, big)
             out.append("prune2 %s %s" % (vecs(rand_vecset(rng, d, a), d), vecs(rand_vecset(rng, d, b), d)))
         else:
-            out.append(gen_interp(rng, kind))
+            out.append(gen_interp_faces(rng, kind) if rng.random() < 0.5 else gen_interp(rng, kind))
     return out
